@@ -9,9 +9,18 @@ Part 2: the inside pass (a fold over `groupby` groups that threads arrays) satis
 recursive equations, in any probability space.
 Part 3: on a single tree, in linear space, the returned marginal likelihood is the exhaustive sum
 `Spec/BruteForce.bruteZ` over all assignments of grid indices to the non-sample nodes.
+Part 4: `posterior_exact` — inside × outside of every non-sample node is a non-zero multiple of the
+exhaustive marginal `Spec/BruteForce.bruteMarginal` (hence equal after normalisation), with or
+without standardisation in either pass; transfer to log space through C12's homomorphism.
+Part 5: the post-processing of `core.py` (`standardize` on columns `1:`, `to_probabilities`)
+normalises the row when the maximum over columns `1:` is non-zero, and does NOT when all posterior
+mass sits at the first timepoint (defect, reproduced on the real code: `inside_outside` raises
+`TSK_ERR_TIME_NONFINITE`).
 -/
 import Mathlib.Algebra.Order.Field.Basic
 import TsdateVerif.Proofs.DiscreteFinal
+import TsdateVerif.Proofs.DiscretePostExact
+import TsdateVerif.Proofs.DiscreteHomPass
 
 namespace Tsdate.C10
 open Tsdate Tsdate.Discrete
@@ -154,5 +163,151 @@ example : singleTreeOK exampleInput = true ∧ rootOf exampleInput = 4 ∧
 
 /-- the brute-force normaliser of the example (4 assignments, 1 excluded by the prior, 0 by order) -/
 example : bruteZ exampleInput.toTreeModel = 20 := by decide +kernel
+
+/-! ## Part 4 — the posterior is exact -/
+
+section
+variable {α : Type} [Field α] [LinearOrder α] [IsStrictOrderedRing α] [Inhabited α]
+
+theorem linOps_isLinOut (pow : α → α → α) (hpow : ∀ v, pow 1 v = v) : IsLinOpsOut (linOps pow) where
+  toIsLinOps := linOps_isLin pow hpow
+  ratio0_ne := fun x y hy => by
+    show (if (x == 0 && y == 0) = true then 0 else x / y) = x / y
+    rw [if_neg (by simp [hy])]
+  ofLin_one := rfl
+
+/-- **`posterior_exact`: inside × outside is the exact marginal, up to a non-zero constant per node.**
+For every single-tree input (`singleTreeOK`, any shape incl. polytomies, any grid size), every
+parents-first outside order made of single-edge groups (`outsideOK`; `edges_by_child_desc` on a tree),
+all span fractions 1, any priors and likelihood tables with non-negative inside rows and tables,
+inside standardised or not, outside standardised or not (with non-zero denominators and
+standardisers — otherwise the real code produces `nan`):
+for every non-sample node `v` there is `κ ≠ 0` with
+`inside[v][t] · outside[v][t] = κ · Σ_{x : x_v = t} Π_u prior_u(x_u) Π_e L_e(x_p, x_c)[x_c ≤ x_p]` for all `t < G`.
+The `0/0 := 0` convention of `ratio(..., div_0_null=True)` is *not* assumed to be anything in
+particular where the divisor vanishes: the proof shows those terms contribute 0 to the posterior
+(a vanishing message forces `inside[child][s] · L[a,s] = 0` by non-negativity). -/
+theorem posterior_exact (pow : α → α → α) (hpow : ∀ v, pow 1 v = v) (inp : Input α)
+    (stdIn stdOut : Bool) (order : List DEdge) (zero : α)
+    (hok : singleTreeOK inp = true) (hoo : outsideOK inp order = true)
+    (hfrac : ∀ e ∈ inp.edges, aget inp.frac e.id = 1)
+    (hroots : inp.roots = [(rootOf inp, 1)])
+    (hd : ∀ g ∈ groupRuns (·.p) inp.edges, aget (insidePass (linOps pow) inp stdIn).1.denom g.1 ≠ 0)
+    (hInn : ∀ g ∈ groupRuns (·.p) inp.edges, ∀ b, b < inp.G →
+      0 ≤ aget (aget (insidePass (linOps pow) inp stdIn).1.inside g.1) b)
+    (hLnn : ∀ e ∈ inp.edges, ∀ a b, a < inp.G → b ≤ a → 0 ≤ inp.toTreeModel.lik e a b)
+    (hnorm : stdOut = true → ∀ e ∈ inp.edges, aget inp.fixed e.c = false →
+      (linOps pow).maxl ((gather (List.zipWith (linOps pow).combine
+          (aget (outsidePass (linOps pow) inp (insidePass (linOps pow) inp stdIn).1 stdOut false order zero) e.p).toList
+          (List.zipWith (linOps pow).ratio0 (aget (insidePass (linOps pow) inp stdIn).1.inside e.p).toList
+            ((edgeMsg (linOps pow) inp (insidePass (linOps pow) inp stdIn).1.inside e).map
+              (fun v => (linOps pow).ratio v (aget (insidePass (linOps pow) inp stdIn).1.denom e.c))))).toArray
+          (toUpperTri inp.G)).map ((linOps pow).scale (aget inp.frac e.id))) ≠ 0 ∧
+      (linOps pow).maxl (outVal (linOps pow) inp (insidePass (linOps pow) inp stdIn).1 stdOut false
+        (outsidePass (linOps pow) inp (insidePass (linOps pow) inp stdIn).1 stdOut false order zero)
+        (e.c, [e])) ≠ 0) :
+    ∀ g ∈ groupRuns (·.p) inp.edges, ∃ κ : α, κ ≠ 0 ∧ ∀ t, t < inp.G →
+      aget (aget (insidePass (linOps pow) inp stdIn).1.inside g.1) t
+        * aget (aget (outsidePass (linOps pow) inp (insidePass (linOps pow) inp stdIn).1 stdOut false
+            order zero) g.1) t
+      = κ * bruteMarginal inp.toTreeModel g.1 t :=
+  posterior_exact_lin (linOps pow) (linOps_isLinOut pow hpow) inp stdIn stdOut order zero hok hoo hfrac
+    hroots hd hInn hLnn hnorm
+
+
+/-- **Both probability spaces.**  Let `ol` be any operation record carried to `linOps pow` by `E`
+(C12: `logOps` with `E = exp`).  Running the passes with `ol` on `inp` and mapping the results through
+`E` gives, for every non-sample node, a non-zero multiple of the exact marginal of the `E`-image of
+the input, and `E` of the returned likelihood is the exact normaliser — i.e. the log-space posterior
+and `exp` of the log-space likelihood are exact as well.  Hypotheses: those of `posterior_exact` /
+`inside_marginal` on the image input, and the guards of C12's `pass_log_eq_lin` on the linear run. -/
+theorem posterior_exact_hom {β : Type} [Inhabited β] (ol : Ops β) (E F : β → α) (Pn : α → Prop)
+    (pow : α → α → α) (hpow : ∀ v, pow 1 v = v) (h : OpsHom ol (linOps pow) E F Pn)
+    (hE : E default = default) (hF : F default = default)
+    (inp : Input β) (stdIn stdOut : Bool) (order : List DEdge) (zL : β) (zN : α)
+    (hz : E (ol.ofLin zL) = (linOps pow).ofLin zN)
+    (hr : ∀ r ∈ inp.roots, E (ol.ofLin r.2) = (linOps pow).ofLin (F r.2) ∧ Pn (F r.2))
+    (hgi : insideGuards Pn (linOps pow) (inp.mapE E F) stdIn (groupRuns (·.p) inp.edges)
+      ((insideInit ol inp).mapE E))
+    (hgo : outsideGuards Pn (linOps pow) (inp.mapE E F) ((insidePass ol inp stdIn).1.mapE E) stdOut false
+      (groupRuns (·.c) order) (outsideInit (linOps pow) (inp.mapE E F) zN))
+    (hlin : ∀ g ∈ groupRuns (·.p) inp.edges, ∃ κ : α, κ ≠ 0 ∧ ∀ t, t < inp.G →
+      aget (aget (insidePass (linOps pow) (inp.mapE E F) stdIn).1.inside g.1) t
+        * aget (aget (outsidePass (linOps pow) (inp.mapE E F)
+            (insidePass (linOps pow) (inp.mapE E F) stdIn).1 stdOut false order zN) g.1) t
+      = κ * bruteMarginal (inp.mapE E F).toTreeModel g.1 t)
+    (hZ : (insidePass (linOps pow) (inp.mapE E F) stdIn).2 = bruteZ (inp.mapE E F).toTreeModel) :
+    (∀ g ∈ groupRuns (·.p) inp.edges, ∃ κ : α, κ ≠ 0 ∧ ∀ t, t < inp.G →
+      E (aget (aget (insidePass ol inp stdIn).1.inside g.1) t)
+        * E (aget (aget (outsidePass ol inp (insidePass ol inp stdIn).1 stdOut false order zL) g.1) t)
+      = κ * bruteMarginal (inp.mapE E F).toTreeModel g.1 t) ∧
+    E (insidePass ol inp stdIn).2 = bruteZ (inp.mapE E F).toTreeModel := by
+  obtain ⟨h1, h2, h3⟩ := pass_hom h hE hF inp stdIn stdOut false order zL zN hz hr hgi hgo
+  refine ⟨?_, h2.trans hZ⟩
+  intro g hg
+  obtain ⟨κ, hκ, hk⟩ := hlin g hg
+  refine ⟨κ, hκ, fun t ht => ?_⟩
+  rw [← hk t ht, ← h3, ← h1]
+  show _ = aget (aget ((insidePass ol inp stdIn).1.inside.map (fun r : Array β => r.map E)) g.1) t * _
+  rw [aget_map_rows, aget_map E hE, aget_map_rows, aget_map E hE]
+
+/-- Consequently the normalised posterior is the exact marginal posterior: a row proportional to
+the marginals normalises to the normalised marginals. -/
+theorem posterior_normalised (G : Nat) (P M : Nat → α) (κ : α) (hκ : κ ≠ 0)
+    (h : ∀ t, t < G → P t = κ * M t) (t : Nat) (ht : t < G) :
+    P t / sumR G P = M t / sumR G M := by
+  have hs : sumR G P = κ * sumR G M := by
+    rw [← sumR_mul_left]; exact sumR_congr G _ _ h
+  rw [h t ht, hs, mul_div_mul_left _ _ hκ]
+
+end
+
+/-! ## Part 5 — the post-processing in `core.py` -/
+
+section
+variable {α : Type} [Field α]
+
+/-- **`standardize()` then `to_probabilities()` normalises the row** whenever the maximum taken over
+columns `1:` (`grid_data[:, 1:].max`) is non-zero. -/
+theorem posteriorProbs_eq_normalise (o : Ops α) (ho : IsLinOps o) (row : List α)
+    (hm : o.maxl (row.drop 1) ≠ 0) : posteriorProbs o (id : α → α) row = normalise row := by
+  unfold posteriorProbs normalise
+  simp only [List.map_map, lsum_eq_sum]
+  have hdiv : ∀ (l : List α) (m : α), (l.map (fun v => v / m)).sum = l.sum / m := by
+    intro l m
+    induction l with
+    | nil => simp
+    | cons y ys ih => simp only [List.map_cons, List.sum_cons, add_div, ih]
+  have hsum : ((row.map ((id : α → α) ∘ fun v => o.ratio v (o.maxl (row.drop 1)))).sum)
+      = row.sum / o.maxl (row.drop 1) := by
+    rw [← hdiv]
+    congr 1
+    apply List.map_congr_left
+    intro v _
+    simp only [Function.comp, id, ho.ratio]
+  rw [hsum]
+  apply List.map_congr_left
+  intro v _
+  simp only [Function.comp, id, ho.ratio]
+  rw [div_div_div_cancel_right₀ hm]
+
+end
+
+/-- **Defect witness (F-C10-a).**  If all posterior mass is at the first timepoint, the maximum over
+columns `1:` is 0 and the post-processing does not return the normalised row (in exact arithmetic
+with `x/0 = 0` it returns all zeros; in IEEE arithmetic `nan`, after which `inside_outside` raises
+`TSK_ERR_TIME_NONFINITE`).  The exact posterior `[1, 0, 0]` is a legitimate answer: the normaliser is
+positive. -/
+theorem standardize_loses_point_mass_at_first_timepoint :
+    posteriorProbs (linOps (fun (_ : Rat) v => v)) (id : Rat → Rat) [1, 0, 0] = [0, 0, 0] ∧
+    normalise ([1, 0, 0] : List Rat) = [1, 0, 0] := by
+  constructor <;> decide +kernel
+
+/-! Non-vacuity of `posterior_exact`: the structural hypotheses on the example tree with the real
+`edges_by_child_desc` order, and the exact marginals it talks about. -/
+example : outsideOK exampleInput [⟨3, 4, 3⟩, ⟨2, 4, 2⟩, ⟨0, 3, 0⟩, ⟨1, 3, 1⟩] = true := by decide +kernel
+
+example : (List.range 2).map (bruteMarginal exampleInput.toTreeModel 3) = [2, 18] ∧
+    (List.range 2).map (bruteMarginal exampleInput.toTreeModel 4) = [0, 20] := by decide +kernel
 
 end Tsdate.C10
